@@ -31,9 +31,12 @@ def _is_word_type(t):
 
 
 class Interp(object):
-    def __init__(self, f, hyp, on_shift):
+    def __init__(self, f, hyp, on_shift, prog=None, allow_loops=False, on_expr=None):
         self.f = f
         self.on_shift = on_shift
+        self.on_expr = on_expr
+        self.prog = prog
+        self.allow_loops = allow_loops
         self.env0 = {}
         for p in f.params:
             if p.name in hyp:
@@ -53,7 +56,12 @@ class Interp(object):
         if k == 'DeclRefExpr':
             if e0.ref == 'm4ri_radix':
                 return (64, 64)
-            return env.get(e0.refid)
+            iv = env.get(e0.refid)
+            if iv is None and self.allow_loops and e0.refkind in ('VarDecl', 'ParmVarDecl') and _is_int_type(e0.type):
+                return (-INF, INF)
+            return iv
+        if k == 'MemberExpr' and e0.name in ('nrows', 'ncols', 'width', 'rowstride', 'length'):
+            return env.get(('m', pp(e0)), (0, (1 << 31) - 1))
         if k == 'UnaryOperator' and e0.op == '-':
             a = self.ev(e0.kids[0], env)
             return None if a is None else (-a[1], -a[0])
@@ -93,6 +101,8 @@ class Interp(object):
             self.walk(e.kids[0], env)
             self.walk(e.kids[1], self.refine(e.kids[0], env, e.op == '&&'))
             return
+        if self.on_expr is not None:
+            self.on_expr(e, env, self)
         if (k == 'BinaryOperator' and e.op in ('<<', '>>')) or (k == 'CompoundAssignOperator' and e.op in ('<<=', '>>=')):
             lt = (e.kids[0].type or '') if hasattr(e.kids[0], 'type') else ''
             if _is_word_type(e.type) or _is_word_type(strip(e.kids[0], casts=True).type):
@@ -108,6 +118,24 @@ class Interp(object):
             return self.refine(c.kids[0], env, not truth)
         if c.kind == 'CallExpr' and callee_name(c) == '__builtin_expect':
             return self.refine(c.kids[1], env, truth)
+        if c.kind == 'CallExpr' and self.prog is not None and callee_name(c):
+            g = self.prog.resolve(callee_name(c), self.f)
+            body = g.body if g is not None else None
+            if body is not None and len(body.kids) == 1 and body.kids[0].kind == 'ReturnStmt' and body.kids[0].kids and len(g.params) == len(c.kids) - 1:
+                env2 = dict(env)
+                for pa, a in zip(g.params, c.kids[1:]):
+                    iv = self.ev(a, env)
+                    if iv is not None:
+                        env2[pa.id] = iv
+                    else:
+                        env2.pop(pa.id, None)
+                env2 = self.refine(body.kids[0].kids[0], env2, truth)
+                out = dict(env)
+                for pa, a in zip(g.params, c.kids[1:]):
+                    if pa.id in env2:
+                        out = self._set(a, env2[pa.id], out)
+                return out
+            return env
         if c.kind == 'BinaryOperator' and c.op in ('&&', '||'):
             if (c.op == '&&') == truth:
                 return self.refine(c.kids[1], self.refine(c.kids[0], env, truth), truth)
@@ -125,18 +153,45 @@ class Interp(object):
             # now a (<|<=) b
             if op in ('<', '<='):
                 d = 1 if op == '<' else 0
-                if a.kind == 'DeclRefExpr' and ia is not None and ib is not None:
-                    env[a.refid] = (ia[0], min(ia[1], ib[1] - d))
-                if b.kind == 'DeclRefExpr' and ia is not None and ib is not None:
-                    env[b.refid] = (max(ib[0], ia[0] + d), ib[1])
+                if ia is not None and ib is not None:
+                    env = self._set(a, (ia[0], min(ia[1], ib[1] - d)), env)
+                    env = self._set(b, (max(ib[0], ia[0] + d), ib[1]), env)
             elif op == '==':
                 if ia is not None and ib is not None:
                     lo, hi = max(ia[0], ib[0]), min(ia[1], ib[1])
-                    if a.kind == 'DeclRefExpr':
-                        env[a.refid] = (lo, hi)
-                    if b.kind == 'DeclRefExpr':
-                        env[b.refid] = (lo, hi)
+                    env = self._set(a, (lo, hi), env)
+                    env = self._set(b, (lo, hi), env)
             return env
+        return env
+
+    def _set(self, e, iv, env):
+        """narrow the storage behind expression e to iv (variables, dimension members, c*var), following aliases"""
+        e0 = strip(e, casts=True)
+        if e0 is None:
+            return env
+        env = dict(env)
+        if e0.kind == 'DeclRefExpr':
+            cur = env.get(e0.refid)
+            env[e0.refid] = iv if cur is None else (max(cur[0], iv[0]), min(cur[1], iv[1]))
+            key = env.get(('alias', e0.refid))
+            if key is not None:
+                cur = env.get(key, (0, (1 << 31) - 1))
+                env[key] = (max(cur[0], iv[0]), min(cur[1], iv[1]))
+        elif e0.kind == 'MemberExpr':
+            key = ('m', pp(e0))
+            cur = env.get(key, (0, (1 << 31) - 1))
+            env[key] = (max(cur[0], iv[0]), min(cur[1], iv[1]))
+            for k_, v_ in list(env.items()):
+                if isinstance(k_, tuple) and k_[0] == 'alias' and v_ == key:
+                    c2 = env.get(k_[1])
+                    env[k_[1]] = env[key] if c2 is None else (max(c2[0], env[key][0]), min(c2[1], env[key][1]))
+        elif e0.kind == 'BinaryOperator' and e0.op == '*':
+            for cst, var in ((e0.kids[0], e0.kids[1]), (e0.kids[1], e0.kids[0])):
+                cv = int_value(cst)
+                if cv is not None and cv > 0:
+                    lo = -((-iv[0]) // cv) if iv[0] > -INF else -INF      # ceil
+                    hi = iv[1] // cv if iv[1] < INF else INF
+                    return self._set(var, (lo, hi), env)
         return env
 
     # ---- statements
@@ -159,6 +214,9 @@ class Interp(object):
                             env[v.id] = iv
                         else:
                             env.pop(v.id, None)
+                        i0 = strip(v.kids[-1], casts=True)
+                        if i0 is not None and i0.kind == 'MemberExpr':
+                            env[('alias', v.id)] = ('m', pp(i0))
             return env
         if k == 'IfStmt':
             self.walk(s.kids[0], env)
@@ -169,15 +227,35 @@ class Interp(object):
             for c in s.kids:
                 self.walk(c, env)
             return None
+        if k in ('ForStmt', 'WhileStmt', 'DoStmt') and self.allow_loops:
+            # havoc everything the loop assigns, visit the body once under the havocked state
+            env = dict(env)
+            for n in s.walk():
+                if (n.kind == 'BinaryOperator' and n.op == '=') or n.kind == 'CompoundAssignOperator' or (n.kind == 'UnaryOperator' and n.op in ('++', '--')):
+                    l = strip(n.kids[0])
+                    if l.kind == 'DeclRefExpr':
+                        env.pop(l.refid, None)
+                        env.pop(('alias', l.refid), None)
+                if n.kind == 'VarDecl':
+                    env.pop(n.id, None)
+            for c in s.kids:
+                if c.kind in ('CompoundStmt', 'DeclStmt') or c is s.kids[-1]:
+                    self.stmt(c, env)
+                elif c.kind != 'Null':
+                    self.walk(c, env)
+            return env
         if k in ('ForStmt', 'WhileStmt', 'DoStmt', 'SwitchStmt', 'GotoStmt', 'LabelStmt'):
             raise AnalysisBroken('C7: %s in %s - the interval interpreter handles straight-line code with branches only' % (k, self.f.name))
         # expression statement
         self.walk(s, env)
         e = strip(s)
+        if e is not None and e.kind == 'CallExpr' and callee_name(e) in ('m4ri_die', 'abort', 'exit'):
+            return None
         if e is not None and ((e.kind == 'BinaryOperator' and e.op == '=') or e.kind == 'CompoundAssignOperator' or (e.kind == 'UnaryOperator' and e.op in ('++', '--'))):
             l = strip(e.kids[0])
-            if l.kind == 'DeclRefExpr' and l.refid in env:
+            if l.kind == 'DeclRefExpr':
                 env = dict(env)
+                env.pop(('alias', l.refid), None)
                 iv = self.ev(e.kids[1], env) if (e.kind == 'BinaryOperator') else None
                 if iv is not None:
                     env[l.refid] = iv
@@ -194,6 +272,10 @@ class Interp(object):
         out = {}
         for k in a:
             if k in b:
+                if isinstance(k, tuple) and k[0] == 'alias':
+                    if a[k] == b[k]:
+                        out[k] = a[k]
+                    continue
                 out[k] = (min(a[k][0], b[k][0]), max(a[k][1], b[k][1]))
         return out
 
@@ -220,4 +302,68 @@ def rule_C7(ctx, prog, label, rule='C7'):
         it = Interp(f, hyp, on_shift)
         it.stmt(f.body, dict(it.env0))
     rr.require_floor(12, 'shifts in the bit-range primitives')
+    return rr
+
+
+# ---------------------------------------------------------------------------------------------- F9
+SPLITTERS = ('_mzd_mul_even', '_mzd_sqr_even', '_mzd_addmul_even', '_mzd_addsqr_even', '_mzd_mul_mp4', '_mzd_addmul_mp4')
+CUTOFF_WRAPPERS = ('mzd_mul', 'mzd_addmul', 'mzd_mul_mp', 'mzd_addmul_mp')
+
+
+def rule_F9(ctx, prog, label, rule='F9'):
+    """recursive splitters: a dimension that is cut into two word-aligned halves (`x - x % mult`, `x -= x % mult`, mult >= 64)
+    is at least 2 * m4ri_radix there - otherwise the half is 0 words wide and the callee gets an empty operand (crash in
+    mzd_copy / "Target matrix is too small").  Interval analysis with the base-case guard inlined; the cutoff is >= 64 at every
+    call from the public wrappers (checked on the wrappers, same analysis)."""
+    rr = RuleResult(rule, 'Strassen-Winograd / multi-core splitters: every dimension that is halved on word boundaries is >= 128 at the cut '
+                          '(interval analysis through the inlined base-case guard), and the wrappers hand over a cutoff >= 64')
+    for name in SPLITTERS:
+        f = prog.funcs.get(name)
+        if f is None or f.body is None:
+            continue          # mp.c is compiled only with OpenMP
+        cut = [p_ for p_ in f.params if p_.name == 'cutoff']
+        if not cut:
+            raise AnalysisBroken('F9: %s has no cutoff parameter' % name)
+        seen = set()
+
+        def on_expr(e, env, it, f=f):
+            if e.kind in ('BinaryOperator', 'CompoundAssignOperator') and e.op in ('%', '%=') and e.uid not in seen:
+                x, m_ = strip(e.kids[0], casts=True), strip(e.kids[1], casts=True)
+                if x.kind == 'DeclRefExpr' and m_.kind == 'DeclRefExpr' and m_.ref == 'mult':
+                    seen.add(e.uid)
+                    iv = it.ev(x, env)
+                    rr.instances += 1
+                    ok = iv is not None and iv[0] >= 128
+                    rr.ob(ok, dict(function=f.name, cut=pp(e)[:30], dimension=list(iv) if iv and iv[1] < INF else ([iv[0], 'inf'] if iv else None)),
+                          Finding(rule, '%s|%s|%s' % (rule, f.name, x.ref), e.loc, f.name,
+                                  '`%s` is cut into word-aligned halves although it may be as small as %s here: for %s in [%s, 127] the half is 0 words wide and '
+                                  'the recursive call works on an empty block (the base-case guard does not cover it)'
+                                  % (x.ref, iv[0] if iv else '?', x.ref, iv[0] if iv else '?'), {}, label))
+        it = Interp(f, {'cutoff': (64, INF)}, lambda e, iv: None, prog=prog, allow_loops=True, on_expr=on_expr)
+        it.stmt(f.body, dict(it.env0))
+    for name in CUTOFF_WRAPPERS:
+        f = prog.funcs.get(name)
+        if f is None or f.body is None:
+            continue
+
+        def on_expr(e, env, it, f=f):
+            if e.kind == 'CallExpr' and callee_name(e) in SPLITTERS + ('_mzd_mul_even', '_mzd_addmul_even'):
+                g = prog.resolve(callee_name(e), f)
+                if g is None:
+                    return
+                idx = [i for i, p_ in enumerate(g.params) if p_.name == 'cutoff']
+                if not idx or idx[0] + 1 >= len(e.kids):
+                    return
+                iv = it.ev(e.kids[1 + idx[0]], env)
+                rr.instances += 1
+                ok = iv is not None and iv[0] >= 64
+                rr.ob(ok, dict(function=f.name, call=pp(e)[:40], cutoff=[iv[0], 'inf'] if iv else None),
+                      Finding(rule, '%s|%s|cutoff' % (rule, f.name), e.loc, f.name,
+                              '`%s` may hand over a cutoff below m4ri_radix (%s): the splitters assume cutoff >= 64' % (pp(e)[:50], iv), {}, label))
+        it = Interp(f, {}, lambda e, iv: None, prog=prog, allow_loops=True, on_expr=on_expr)
+        try:
+            it.stmt(f.body, dict(it.env0))
+        except AnalysisBroken:
+            raise
+    rr.require_floor(8, 'cuts and wrapper calls')
     return rr
